@@ -1,7 +1,9 @@
 import AscentVerif.Model.Sexp
 import AscentVerif.Model.Check
 /-!
-# Driver op `chk <summary>`: the model's answer (`ok` | `err <Kind>` | `panic <Site>`) for one program summary
+# Driver op `chk <summary>`: the model's answer for one program summary — `ok` | `err <Kind>` (`Err.render`; the
+kinds include `aggBoundArg`, `sigName`, `sigGenerics`, `emptyDisj` since the fixes 5862f99 / dfbe0be / 361e42e; the
+model never answers `panic <Site>` any more: `check_never_panics`)
 (grammar: tools/vlib/c15gen.py `summary`).  `chkc <summary>` additionally prints the number of desugared rules.
 -/
 namespace AscentVerif.Driver
